@@ -8,7 +8,7 @@
    with outcome in { ONoop, OSet return total, OErrCount, OErrScript, OErrAmount, OErrMinLovelace } (the four errors
    are the ValueErrors the method raises: no transaction body is produced). *)
 From Coq Require Import NArith ZArith List Bool.
-From PyC Require Import Base Cbor Dict Value ValueProofs Collateral CollateralProofs.
+From PyC Require Import Base Cbor Dict Value ValueProofs Collateral CollateralProofs CollateralHistory.
 Import ListNotations.
 Open Scope Z_scope.
 
@@ -171,3 +171,29 @@ Theorem C13_refusal_justified : forall minl P inputs pot at_addr,
   forall c, In c (inputs ++ pot ++ at_addr) -> good c -> In (cid c) (map cid (fst st)).
 Proof. exact auto_select_exhaustive. Qed.
 Print Assumptions C13_refusal_justified.
+
+(* HISTORIES.  One builder, any number of build() calls and refused attempts before the one looked at (each with whatever
+   collaterals, candidate lists, parameters and return address were in force then; cc_explicit of a later call may contain what
+   an earlier call selected): the collateral inputs, return and total that go into the body of a build that completes satisfy the
+   ledger rule -- nothing an earlier call computed survives into it.  fields_of_history = the builder's _collateral_return /
+   _total_collateral after the history, for the method as repaired (cleared first, set in the last branch only). *)
+Theorem C13_every_build_of_a_history : forall pre h c fee,
+  cc_ok c -> completed (snd (cc_run c)) ->
+  fee <= p_max_fee (cc_P c) + p_fee_buffer (cc_P c) ->
+  let f := fields_of_history pre (h ++ [c]) in
+  collateral_ok (mkLP (p_percent (cc_P c)) (p_max_inputs (cc_P c)) (cc_cpb c)) fee (fst (cc_run c)) (fst f) (snd f) = true.
+Proof. exact history_collateral_ok. Qed.
+Print Assumptions C13_every_build_of_a_history.
+
+(* the method as it was written before the repair (fields only ever set: fields_kept) violates the rule on the second build of
+   the history found on the implementation: collateral 10 ADA + 7 tokens, then an ADA-only 4 ADA UTxO that needs no return --
+   the body names the 4 ADA input and carries a return of 6.738584 ADA + 7 tokens and total 3261416 *)
+Theorem C13_stale_fields_refuted :
+  cc_ok Stale.second /\ completed (snd (cc_run Stale.second)) /\ fst (cc_run Stale.second) = [Stale.y]
+  /\ (exists r b, fst Stale.after_second = Some (r, b) /\ coin r = 6738584 /\ massets r = Stale.tok)
+  /\ snd Stale.after_second = Some 3261416
+  /\ collateral_ok (mkLP 150 3 4310) 2174277 [Stale.y] (fst Stale.after_second) (snd Stale.after_second) = false
+  /\ collateral_ok (mkLP 150 3 4310) 2174277 [Stale.y]
+       (fst (fields_after Stale.addr (snd (cc_run Stale.second)))) (snd (fields_after Stale.addr (snd (cc_run Stale.second)))) = true.
+Proof. exact fields_kept_refuted. Qed.
+Print Assumptions C13_stale_fields_refuted.
